@@ -128,6 +128,9 @@ def main(argv):
     try:
         msgs = analyze(fn, timeout, per_path)
         res["verdict"] = verdict_of(msgs)
+    except q.HarnessError as exc:
+        msgs = [("HARNESS_ERR", str(exc))]
+        res["verdict"] = "UNKNOWN"
     except Exception as exc:   # engine failure
         msgs = [("ENGINE_ERR", repr(exc))]
         res["verdict"] = "UNKNOWN"
